@@ -122,6 +122,7 @@ def rules_for(pid):
         "C17": [
             ("K-self-cycle", lambda c: RC17.k_self_cycle(c.P, c.E), 9),
             ("K1", lambda c: RC17.k1_cut_after_terminal(c.P, c.E), 1),
+            ("O-typestate", lambda c: RO.o_typestate(c.P, c.E, ("callback kept after terminal",)), 8),
             ("K5", lambda c: RC17.k5_relay_cut(c.P, c.E), 4),
             ("K6", lambda c: RC17.k6_connect_cycle(c.P, c.E), 2),
             ("S-finalize-after-terminal", lambda c: RO.s_finalize_after_terminal(c.P, c.E), 6),
